@@ -1,4 +1,5 @@
 import MaddyVerif.Model.Errors
+import MaddyVerif.Model.ErrorsNextHop
 import MaddyVerif.Generated.SmtpLits
 import MaddyVerif.Expect.SmtpLits
 /-!
@@ -381,5 +382,309 @@ theorem C16_marker_disagreement_breaks_retry_class :
     queueRetries (Err.withTemp true (.smtp 550 ⟨5,1,1⟩ [])) = true ∧
     (toSMTPErr (Err.withTemp true (.smtp 550 ⟨5,1,1⟩ []))).code / 100 = 5 := by
   refine ⟨by simp [LeavesCoherent, annOk, pairOk], by decide, by decide⟩
+
+/-! ## Failures of the next hop: `smtpconn.wrapClientErr`, the MX loop of `remote.newConn`,
+`multipleErrs` (strengthening round 3) -/
+
+/-- Everything C16 asks of ONE failure value: the reply to a client is class-coherent, so is the
+record of the queue, and the queue retries it exactly when it records 4yz. -/
+def Good (e : Err) : Prop :=
+  (∀ mang, Coherent (wrapErr mang e)) ∧ StoredCoherent (toSMTPErr e) ∧
+  (queueRetries e = true ↔ (toSMTPErr e).code / 100 = 4) ∧
+  (queueRetries e = false ↔ (toSMTPErr e).code / 100 = 5)
+
+theorem good_of_wellformed (e : Err) (h : LeavesCoherent e) (hm : MarkersAgree e) : Good e :=
+  ⟨fun mang => C16_endpoint_reply_classes_agree mang e h, C16_queue_record_classes_agree e h hm,
+   (C16_class_matches_retry e h hm).1, (C16_class_matches_retry e h hm).2⟩
+
+/-- A value whose OUTERMOST node is an `annOk` SMTP annotation is good whatever it wraps. -/
+theorem good_of_top_annotated (c : Nat) (en : Ench) (m : List Nat) (i : Err)
+    (h : annOk c en = true) : Good (.smtpWrap c en m i) := by
+  have hcls : c / 100 = 4 ∨ c / 100 = 5 := by
+    rcases annOk_cases h with ⟨_, h1, h2⟩ | ⟨_, h2⟩
+    · omega
+    · exact h2
+  refine ⟨?_, ?_, ?_, ?_⟩
+  · intro mang
+    by_cases hd : hasDeadline i = true
+    · have : wrapErr mang (.smtpWrap c en m i) = ⟨451, some ⟨4, 4, 5⟩, .highLoad⟩ := by
+        cases mang <;> simp [wrapErr, hasDeadline, hd]
+      rw [this]; exact ⟨⟨4,4,5⟩, by simp [wireEnch, notSet], by simp, by simp⟩
+    · have hd' : hasDeadline i = false := by simpa using hd
+      have : ∃ mm, wrapErr mang (.smtpWrap c en m i) = ⟨c, some en, mm⟩ := by
+        cases mang
+        · exact ⟨_, by simp [wrapErr, hasDeadline, hd', codeField, enchField, msgField, msgOf]; rfl⟩
+        · exact ⟨_, by simp [wrapErr, hasDeadline, hd', codeField, enchField, msgField, msgOf]; rfl⟩
+      obtain ⟨mm, hw⟩ := this
+      rw [hw]; exact coherent_of_annOk h
+  · have hshape : toSMTPErr (.smtpWrap c en m i) =
+        ⟨c, some (pickEnch (some en) (if c / 100 == 4 then ⟨4,0,0⟩ else ⟨5,0,0⟩)), .text m⟩ := by
+      simp [toSMTPErr, codeField, enchField, msgField, msgOf, isTemporaryOrUnspec, tempOf]
+    rw [hshape]
+    rcases annOk_cases h with ⟨hn, h1, h2⟩ | ⟨hn, h2⟩
+    · simp only [pickEnch, hn, Bool.false_eq_true, ↓reduceIte]; exact ⟨en, rfl, h1, h2⟩
+    · simp only [pickEnch, hn, ↓reduceIte]
+      rcases h2 with h2 | h2
+      · simp [h2]; exact ⟨⟨4,0,0⟩, rfl, by simp [h2], by simp⟩
+      · simp [h2]; exact ⟨⟨5,0,0⟩, rfl, by simp [h2], by simp⟩
+  · simp [queueRetries, toSMTPErr, codeField, isTemporaryOrUnspec, tempOf]
+  · simp [queueRetries, toSMTPErr, codeField, isTemporaryOrUnspec, tempOf]; omega
+
+theorem annOk_of_pairOk {c : Nat} {en : Ench} (h : pairOk c en = true) : annOk c en = true := by
+  simp [annOk, h]
+
+theorem markersAgree_transparent {e : Err} (h : MarkersAgree e) : MarkersAgree (transparent e) := by
+  intro c hc
+  simpa [transparent, tempOf] using h c (by simpa [transparent, codeField] using hc)
+
+theorem good_transparent {e : Err} (h : LeavesCoherent e) (hm : MarkersAgree e) :
+    Good (transparent e) :=
+  good_of_wellformed _ (by simpa [transparent, LeavesCoherent] using h) (markersAgree_transparent hm)
+
+/-- The 552 → 452 rewrite keeps a relayed reply class-coherent: the class of the enhanced code
+follows the basic code. -/
+theorem rewrite552_annOk {c : Nat} {en : Ench} (h : annOk c en = true) :
+    annOk (rewrite552 c en).1 (rewrite552 c en).2 = true := by
+  unfold rewrite552
+  by_cases hc : (c == 552) = true
+  · simp only [hc, ↓reduceIte]
+    simp [annOk, pairOk]
+  · simp only [hc, Bool.false_eq_true, ↓reduceIte]; exact h
+
+/-- **C16 (next hop, any client error).** Whatever the SMTP client reported — a reply (any basic
+code, with or without enhanced code, 552 included), a network or DNS error, a TLS failure, any other
+value — the failure `wrapClientErr` makes of it is answered and recorded with codes of one class and
+retried exactly when that class is 4.  Hypothesis: a RELAYED reply is itself class-coherent. -/
+theorem C16_next_hop_failure_coherent (addr : Bool) (server : List Nat) (x : ClientErr)
+    (h : ClientOk x) : Good (wrapClientErr addr server x) := by
+  cases x with
+  | tls i => exact good_transparent h.1 h.2
+  | op dns t i =>
+    cases dns
+    · exact good_of_top_annotated _ _ _ _ (by decide)
+    · exact good_of_top_annotated _ _ _ _
+        (annOk_of_pairOk (C16_helper_pair_coherent _ 450 550 ⟨0, 4, 4⟩ rfl rfl))
+  | val e =>
+    obtain ⟨h1, h2⟩ := h
+    cases e with
+    | plain => exact good_transparent h1 h2
+    | deadline => exact good_transparent h1 h2
+    | net t => exact good_transparent h1 h2
+    | smtp c en m => exact good_of_wellformed _ h1 h2
+    | smtpWrap c en m i => exact good_of_wellformed _ h1 h2
+    | withTemp t i => exact good_transparent h1 h2
+    | withFields c en m i => exact good_transparent h1 h2
+    | rawSmtp c en m =>
+      exact good_of_top_annotated _ _ _ _ (rewrite552_annOk (by simpa [LeavesCoherent] using h1))
+
+/-- **C16 (relayed reply).** The instance the property is about: every class-coherent reply of a
+next hop, for all basic codes, enhanced codes (or none), texts, with and without the server name
+in the text. -/
+theorem C16_relayed_reply_coherent (addr : Bool) (server : List Nat) (c : Nat) (en : Ench)
+    (m : List Nat) (h : annOk c en = true) :
+    Good (wrapClientErr addr server (.val (.rawSmtp c en m))) :=
+  C16_next_hop_failure_coherent addr server _
+    ⟨by simpa [LeavesCoherent] using h, by intro c' hc; simp [codeField] at hc⟩
+
+/-- The rewritten reply is what is kept as the cause, too (the code rewrites in place). -/
+theorem C16_rewrite_552_is_452 (addr : Bool) (server : List Nat) (en : Ench) (m : List Nat) :
+    (toSMTPErr (wrapClientErr addr server (.val (.rawSmtp 552 en m)))).code = 452 ∧
+    queueRetries (wrapClientErr addr server (.val (.rawSmtp 552 en m))) = true := by
+  constructor <;>
+    simp [wrapClientErr, rewrite552, toSMTPErr, queueRetries, isTemporaryOrUnspec, tempOf, codeField]
+
+/-- **C16 (no usable MX).** For EVERY failure kept by the MX loop — annotated or not, coherent or
+not — the failure `newConn` reports is good: basic code and class of the enhanced code are both
+computed from the temporariness of the same error. -/
+theorem C16_no_usable_mx_coherent (errText : Err → List Nat) (l : Err) :
+    Good (noUsableMX errText l) :=
+  good_of_top_annotated _ _ _ _
+    (annOk_of_pairOk (C16_helper_pair_coherent l 451 550 ⟨0, 4, 0⟩ rfl rfl))
+
+/-- **C16 (newConn).** For every list of per-MX outcomes (any length, any failures in any order). -/
+theorem C16_newConn_failure_coherent (errText : Err → List Nat) (attempts : List (Option Err))
+    (e : Err) (h : newConnErr errText attempts = some e) : Good e := by
+  unfold newConnErr at h
+  split at h
+  · simp at h; subst h; exact C16_no_usable_mx_coherent _ _
+  · cases h
+
+def AfterOk : After → Prop
+  | .ok => True
+  | .asIs e => LeavesCoherent e ∧ MarkersAgree e
+  | .wrapped e => LeavesCoherent e ∧ MarkersAgree e
+
+theorem good_afterErr (after : After) (e : Err) (ha : AfterOk after) (h : afterErr after = some e) :
+    Good e := by
+  cases after with
+  | ok => cases h
+  | asIs x => simp [afterErr] at h; subst h; exact good_of_wellformed _ ha.1 ha.2
+  | wrapped x => simp [afterErr] at h; subst h; exact good_transparent ha.1 ha.2
+
+/-- **C16 (transaction of the remote target).** Every failure of the transaction with the domain
+of a recipient — no usable MX, MAIL, RCPT, DATA or the end of the data refused — is good. -/
+theorem C16_transaction_failure_coherent (errText : Err → List Nat) (attempts : List (Option Err))
+    (after : After) (e : Err) (ha : AfterOk after)
+    (h : txErr errText attempts after = some e) : Good e := by
+  unfold txErr at h
+  split at h
+  · simp at h; subst h; exact C16_no_usable_mx_coherent _ _
+  · cases h
+  · exact good_afterErr after e ha h
+
+theorem downLoop_last_mem (attempts : List (Option Err)) :
+    ∀ (acc : Option Err) (l : Err), downLoop acc attempts = some (some l) →
+      acc = some l ∨ some l ∈ attempts := by
+  induction attempts with
+  | nil => intro acc l h; left; simpa [downLoop] using h
+  | cons a rest ih =>
+    intro acc l h
+    cases a with
+    | none => simp [downLoop] at h
+    | some e =>
+      simp only [downLoop] at h
+      rcases ih _ _ h with h1 | h1
+      · simp at h1; subst h1; right; simp
+      · right; simp [h1]
+
+/-- **C16 (downstream target).** Every failure of a transaction of `target.smtp` / `target.lmtp` —
+no endpoint reachable (the failure of the last one, itself a good one, is passed on), MAIL, RCPT,
+DATA, end of data refused, an LMTP status — is good. -/
+theorem C16_downstream_failure_coherent (attempts : List (Option Err)) (after : After) (e : Err)
+    (hatt : ∀ x, some x ∈ attempts → LeavesCoherent x ∧ MarkersAgree x) (ha : AfterOk after)
+    (h : downTxErr attempts after = some e) : Good e := by
+  unfold downTxErr at h
+  split at h
+  · rename_i l hl
+    simp at h; subst h
+    rcases downLoop_last_mem attempts none l hl with h1 | h1
+    · cases h1
+    · exact good_transparent (hatt l h1).1 (hatt l h1).2
+  · cases h
+  · exact good_afterErr after e ha h
+
+/-- **C16 (LMTP status).** A class-coherent per-recipient status of an LMTP server is recorded and
+answered coherently. -/
+theorem C16_lmtp_status_coherent (c : Nat) (en : Ench) (m : List Nat) (h : annOk c en = true) :
+    Good (lmtpStatus c en m) :=
+  good_of_top_annotated _ _ _ _ h
+
+/-- **C16 (MX lookup).** Whatever error the MX lookup fails with, the failure reported is good. -/
+theorem C16_mx_lookup_failure_coherent (e : Err) : Good (lookupMXErr e) :=
+  good_of_top_annotated _ _ _ _
+    (annOk_of_pairOk (C16_helper_pair_coherent e 451 554 ⟨0, 4, 4⟩ rfl rfl))
+
+theorem newConnLoop_kept_mem (attempts : List (Option Err)) :
+    ∀ (acc : Option Err) (l : Err), newConnLoop acc attempts = some (some l) →
+      acc = some l ∨ some l ∈ attempts := by
+  induction attempts with
+  | nil => intro acc l h; left; simpa [newConnLoop] using h
+  | cons a rest ih =>
+    intro acc l h
+    cases a with
+    | none => simp [newConnLoop] at h
+    | some e =>
+      simp only [newConnLoop] at h
+      rcases ih _ _ h with h1 | h1
+      · cases acc with
+        | none => simp [keepStep] at h1; subst h1; right; simp
+        | some a0 =>
+          simp only [keepStep] at h1
+          split at h1
+          · simp at h1; subst h1; right; simp
+          · left; exact h1
+      · right; simp [h1]
+
+/-- The error reported as the cause is the failure of one of the candidates. -/
+theorem C16_newConn_kept_is_a_failure (attempts : List (Option Err)) (l : Err)
+    (h : newConnLoop none attempts = some (some l)) : some l ∈ attempts := by
+  rcases newConnLoop_kept_mem attempts none l h with h1 | h1
+  · cases h1
+  · exact h1
+
+theorem newConnLoop_keeps_temporary (attempts : List (Option Err)) :
+    ∀ (acc : Option Err) (l : Err), newConnLoop acc attempts = some (some l) →
+      ((∃ a, acc = some a ∧ isTemporaryOrUnspec a = true) ∨
+       (∃ e, some e ∈ attempts ∧ isTemporaryOrUnspec e = true)) →
+      isTemporaryOrUnspec l = true := by
+  induction attempts with
+  | nil =>
+    intro acc l h hex
+    simp [newConnLoop] at h
+    rcases hex with ⟨a, ha, ht⟩ | ⟨e, he, _⟩
+    · rw [h] at ha; cases ha; exact ht
+    · simp at he
+  | cons a rest ih =>
+    intro acc l h hex
+    cases a with
+    | none => simp [newConnLoop] at h
+    | some e =>
+      simp only [newConnLoop] at h
+      apply ih _ _ h
+      rcases hex with ⟨a0, ha, ht⟩ | ⟨e', he', ht'⟩
+      · left; subst ha
+        by_cases hte : isTemporaryOrUnspec e = true
+        · exact ⟨e, by simp [keepStep, hte], hte⟩
+        · exact ⟨a0, by simp [keepStep, ht, hte], ht⟩
+      · simp at he'
+        rcases he' with he' | he'
+        · subst he'; left
+          cases acc with
+          | none => exact ⟨e', by simp [keepStep], ht'⟩
+          | some a0 => exact ⟨e', by simp [keepStep, ht'], ht'⟩
+        · right; exact ⟨e', he', ht'⟩
+
+/-- **C16 (one temporary MX failure suffices).** When no candidate can be used and the failure of
+one of them is (or may be) temporary, the error kept as the cause is, whatever the order. -/
+theorem C16_newConn_temporary_failure_is_kept (attempts : List (Option Err)) (l e : Err)
+    (h : newConnLoop none attempts = some (some l)) (he : some e ∈ attempts)
+    (ht : isTemporaryOrUnspec e = true) : isTemporaryOrUnspec l = true :=
+  newConnLoop_keeps_temporary attempts none l h (Or.inr ⟨e, he, ht⟩)
+
+/-- **C16 (several recipients).** The failure `Body` of the remote target reports for several
+recipients is answered with codes of one class, for every list of per-recipient errors. -/
+theorem C16_multiple_errs_reply_coherent (mang : Bool) (errs : List Err) :
+    Coherent (wrapErr mang (multipleErrs errs)) := by
+  have : ∃ mm, wrapErr mang (multipleErrs errs) =
+      ⟨if errs.any isTemporary then 451 else 550,
+       some (if errs.any isTemporary then ⟨4,0,0⟩ else ⟨5,0,0⟩), mm⟩ := by
+    cases mang
+    · exact ⟨_, by simp [wrapErr, multipleErrs, hasDeadline, codeField, enchField, msgField, msgOf]; rfl⟩
+    · exact ⟨_, by simp [wrapErr, multipleErrs, hasDeadline, codeField, enchField, msgField, msgOf]; rfl⟩
+  obtain ⟨mm, hw⟩ := this
+  rw [hw]
+  by_cases ht : errs.any isTemporary = true
+  · simp only [ht, ↓reduceIte]; exact coherent_451_400 _
+  · simp only [ht, Bool.false_eq_true, ↓reduceIte]
+    exact ⟨⟨5,0,0⟩, by simp [wireEnch, notSet], by simp, by simp⟩
+
+/-! Non-vacuity of the next-hop theorems -/
+example : ClientOk (.val (.rawSmtp 552 ⟨5, 2, 2⟩ [70])) :=
+  ⟨by simp [LeavesCoherent, annOk, pairOk], by intro c hc; simp [codeField] at hc⟩
+example : toSMTPErr (wrapClientErr false [] (.val (.rawSmtp 552 ⟨5, 2, 2⟩ [70]))) =
+    ⟨452, some ⟨4, 2, 2⟩, .text [70]⟩ := by decide
+example : toSMTPErr (wrapClientErr false [] (.val (.rawSmtp 552 ⟨0, 0, 0⟩ [70]))) =
+    ⟨452, some ⟨4, 0, 0⟩, .text [70]⟩ := by decide
+example : ClientOk (.tls (.rawSmtp 454 ⟨4, 7, 0⟩ [])) :=
+  ⟨by simp [LeavesCoherent, annOk, pairOk], by intro c hc; simp [codeField] at hc⟩
+example : annOk 552 ⟨5, 2, 2⟩ = true ∧ annOk 552 ⟨0, 0, 0⟩ = true ∧ annOk 421 ⟨4, 4, 2⟩ = true := by decide
+/-- a transaction that reaches RCPT on the second candidate and is refused there with 552 5.2.2 -/
+example : AfterOk (.wrapped (wrapClientErr true [] (.val (.rawSmtp 552 ⟨5, 2, 2⟩ [])))) :=
+  ⟨by simp [wrapClientErr, rewrite552, LeavesCoherent, annOk, pairOk],
+   by intro c hc; simp [wrapClientErr, rewrite552, codeField] at hc; subst hc
+      simp [wrapClientErr, rewrite552, tempOf]⟩
+example : (txErr (fun _ => []) [some .plain, none]
+    (.wrapped (wrapClientErr true [] (.val (.rawSmtp 552 ⟨5, 2, 2⟩ []))))).map toSMTPErr =
+    some ⟨452, some ⟨4, 2, 2⟩, .text saidInfix⟩ := by decide
+/-- downstream: both endpoints fail, the failure of the last one (a 421 greeting) is reported -/
+example : (downTxErr [some (transparent .plain), some (wrapClientErr false [] (.val (.rawSmtp 421 ⟨4, 4, 2⟩ [])))]
+    .ok).map toSMTPErr = some ⟨421, some ⟨4, 4, 2⟩, .text []⟩ := by decide
+example : newConnLoop none [some (.smtp 450 ⟨4,4,2⟩ []), some (.smtp 550 ⟨5,7,0⟩ [])] =
+    some (some (.smtp 450 ⟨4,4,2⟩ [])) := rfl
+/-- temporary first, permanent last: the temporary one is kept, the report is 451 4.4.0 -/
+example : (newConnErr (fun _ => []) [some (.smtp 450 ⟨4,4,2⟩ []), some (.smtp 550 ⟨5,7,0⟩ [])]).map toSMTPErr =
+    some ⟨451, some ⟨4, 4, 0⟩, .text noMXPrefix⟩ := by decide
+example : (newConnErr (fun _ => []) [some (.smtp 550 ⟨5,7,0⟩ []), some (.smtp 550 ⟨5,7,0⟩ [])]).map toSMTPErr =
+    some ⟨550, some ⟨5, 4, 0⟩, .text noMXPrefix⟩ := by decide
 
 end MaddyVerif.C16
